@@ -82,7 +82,17 @@ def h_text(X, thorough):
     decl = X.choose("declared", DECLARED) if pk in ("meta", "xml", "css", "late-meta") else None
     c1 = X.choose("cp1", list(CLASSES))
     c2 = X.choose("cp2", ["none"] + (list(CLASSES) if thorough else ["latin1-high", "ascii"]))
-    text = _prefix(pk, decl) + CLASSES[c1] + (CLASSES[c2] if c2 != "none" else "")
+    # a character in front of / inside the declaration: whether the declaration still counts must be answered identically
+    # by the writing and the reading side (the sniffers work on an ASCII projection of the text resp. on the raw bytes)
+    lead = X.choose("before_declaration", ["none", "latin1-high", "bmp", "nbsp-inside"]) if decl is not None else "none"
+    pre = _prefix(pk, decl)
+    if lead == "nbsp-inside":
+        pre = pre.replace(" ", "\xa0", 1) if " " in pre else "\xa0" + pre
+    elif lead != "none":
+        pre = CLASSES[lead] + pre
+    if lead != "none":
+        X.reach("non-ascii-before-declaration")
+    text = pre + CLASSES[c1] + (CLASSES[c2] if c2 != "none" else "")
     h = http.Headers()
     header = None
     if ct is not None:
@@ -229,8 +239,8 @@ def obligations(tier):
     obs = [
         Symx("text-roundtrip", lambda X: h_text(X, thorough),
              bounds=f"Content-Type {CTYPES} x charset {CHARSETS_T if thorough else CHARSETS} x prefix {PREFIX} x declared charset {DECLARED} x "
-                    f"code point classes {list(CLASSES)} x second code point ({'all classes' if thorough else 'none/latin1-high/ascii'}) x request/response",
-             encoded=ENCODED, must_reach=["set", "end", "surrogate", "charset-kept", "charset-updated", "bom-consumed"], parallel_depth=3),
+                    f"character in front of / inside the declaration {{none, U+00E9, U+4E2D, U+00A0 replacing the first blank}} x code point classes {list(CLASSES)} x second code point ({'all classes' if thorough else 'none/latin1-high/ascii'}) x request/response",
+             encoded=ENCODED, must_reach=["set", "end", "surrogate", "charset-kept", "charset-updated", "bom-consumed", "non-ascii-before-declaration"], parallel_depth=3),
         Symx("second-assignment", h_second_assignment,
              bounds="6 content types x 7 charsets x prefixes x declared charsets x 4 code point classes: get_text() output assigned again",
              encoded=ENCODED[:2], must_reach=["fixpoint"]),
